@@ -12,6 +12,7 @@ mod util;
 mod c01;
 mod c10;
 mod c12;
+mod c13;
 mod c15;
 mod render;
 mod multi;
@@ -62,6 +63,7 @@ fn checks() -> Vec<Check> {
         Check { id: "C04", run: mp::c04_run, meta: mp::c04_meta, replay: mp::c04_replay },
         Check { id: "C10", run: c10::run, meta: c10::meta, replay: c10::replay },
         Check { id: "C12", run: c12::run, meta: c12::meta, replay: c12::replay },
+        Check { id: "C13", run: c13::run, meta: c13::meta, replay: c13::replay },
         Check { id: "C15", run: c15::run, meta: c15::meta, replay: c15::replay },
         Check { id: "C19", run: mp::c19_run, meta: mp::c19_meta, replay: mp::c19_replay },
     ]
